@@ -59,7 +59,21 @@ def bindings(rnd, n):
     # not depend on the iteration order of a set
     out.append((("rgba (120, 120, 120, 0.9)", "#ffffff", False), ("RGBA 200 30 30 50%", "#ffffff", False)))
     out.append((("rgb (119, 119, 119)", "#ffffff", False), ("rgba (20, 20, 20, 1)", "#777777", True)))
+    n_edge = [0]
     while len(out) < n:
+        if n_edge[0] < 6:
+            n_edge[0] += 1
+            # fixes that run into the edge of the gamut and fail there (light text on a mid-tone saturated background that not even
+            # white could clear; dark text likewise): the search ends on a flat piece of its cost surface
+            for _try in range(200):
+                b = pairs.rand_colour(rnd)
+                lb = refs.wcag_lum(b)
+                a = tuple(rnd.randrange(170, 256) for _ in range(3)) if _try % 2 else tuple(rnd.randrange(0, 70) for _ in range(3))
+                if (0.22 <= lb <= 0.42 and refs.wcag_lum(a) > 0.6) or (0.10 <= lb <= 0.17 and refs.wcag_lum(a) < 0.03):
+                    break
+            c, d = pairs.near_threshold(rnd, rnd.choice((3.0, 4.5, 7.0)), (0.0, 0.3))
+            out.append(((pairs.hexs(a), pairs.hexs(b), False), (c, d, bool(rnd.getrandbits(1)))))
+            continue
         a, b = pairs.near_background(rnd) if rnd.random() < 0.5 else pairs.near_threshold(rnd, rnd.choice((3.0, 4.5, 7.0)), (0.0, 0.35))
         c, d = pairs.near_threshold(rnd, rnd.choice((3.0, 4.5, 7.0)), (0.0, 0.3))
         out.append(((pairs.hexs(a), pairs.hexs(b), bool(rnd.getrandbits(1))), (c, d, bool(rnd.getrandbits(1)))))
@@ -106,6 +120,15 @@ def concretise(hist, bind):
                 lg = e[2] if len(e) == 3 else False
                 keymap[apirec.krepr("pair", e[0], e[1], lg)] = (e[0], e[1], lg)
             ops.append(["bulk", [[E(x) for x in e] for e in ents], m, bool(v), bool(sv)])
+        elif kind == "bulkabort":
+            # a bulk call over the two pairs whose last row is malformed: it may raise - and must leave nothing behind
+            _, m, v = op
+            (t1, b1, l1), (t2, b2, l2) = bind[0], bind[1]
+            ents = [(t1, b1), (t2, b2), (t1, b1, True)]
+            for e in ents:
+                lg = e[2] if len(e) == 3 else False
+                keymap[apirec.krepr("pair", e[0], e[1], lg)] = (e[0], e[1], lg)
+            ops.append(["bulk", [[E(x) for x in e] for e in ents], m, bool(v), False, "list", "abort"])
         elif kind == "bulkmany":
             # a bulk run over hundreds of DISTINCT pairs that all need real work (tens of thousands of colour conversions): whatever the
             # library keeps between calls has been through a long history afterwards
@@ -225,7 +248,7 @@ def main():
     rep.add_model("ApiHist(Depth=3,NP=2) history generator", r, "abstract histories replayed into the implementation")
     hists = [h for h in hists if len(h) >= 2 and any(o[0] in ("fix", "bulk") for o in h[1:])]
     rep.extra["histories_enumerated_by_tlc"] = len(hists)
-    nb = 29 if t == "quick" else 52
+    nb = 35 if t == "quick" else 60
     binds = bindings(rnd, nb)
     nh = 420 if t == "quick" else 9000
     jobs = []
@@ -237,6 +260,14 @@ def main():
         bnd = [(("#777777", "#ffffff", False), ("#767676", "#ffffff", False)), (((119, 119, 119), "#ffffff", True), ("#888888", "#000000", False)),
                (("rgb(119, 119, 119)", "white", False), ("#000000", "#ffffff", True))][k % 3]
         jobs.append(((("new", 1), ("fix", 1, k % 3, False, 0), ("bulklong", k % 3, False), ("fix", 2, k % 3, False, 0), ("bulklong", k % 3, False)), bnd))
+    # histories around a bulk call that is refused half-way (malformed last row): the same pairs before and afterwards, with the
+    # same and with other settings, in bulk and singly
+    for k in range(6 if t == "quick" else 40):
+        m0, v0 = k % 3, bool(k & 1)
+        m1, v1 = (k + 1) % 3, not v0
+        jobs.append(((("new", 1), ("bulk", 1, m0, v0, 0), ("bulkabort", m0, v0), ("bulk", 1, m1, v1, 0), ("bulk", 2, m0, not v0, 0),
+                      ("bulkabort", m1, v1), ("bulk", 1, m0, v0, 0), ("fix", 1, m1, v0, 0), ("new", 2), ("fix", 2, m0, v1, 0), ("bulk", 3, m1, v0, 0)),
+                     binds[(k * 5 + 3) % len(binds)]))
     # long histories: probes, then three bulk runs over 400 distinct pairs each (some 40,000 distinct colours pass through the conversions), then the same probes again (same and new objects)
     for k in range(2 if t == "quick" else 10):
         bnd = [(("#999999", "#ffffff", False), ("#8a8a8a", "#101010", False)), (("rgb(150, 120, 90)", "#ffffff", False), ((60, 90, 160), (20, 20, 20), True))][k % 2]
